@@ -740,6 +740,10 @@ impl Sim {
             Op::Publish { topic, msgs } => {
                 self.publish(client, topic, msgs, ab).await;
             }
+            Op::PublishMany { topic, count } => {
+                let msgs = vec![MsgSpec { data: 1, attrs: 0 }; *count as usize];
+                self.publish(client, topic, &msgs, ab).await;
+            }
             Op::Pull { sub, max, immediate } => {
                 self.pull(client, sub, *max, *immediate, ab, None, None).await;
             }
